@@ -273,11 +273,13 @@ def check_wf(root, space):
     return None
 
 
-def check_population(space, roots_named):
-    """roots_named: [(name, root)].  Every root well formed, no node shared between two of them."""
+def check_population(space, roots_named, inputs=()):
+    """roots_named: [(name, root)].  Every root well formed, no node shared between two of them.
+    Roots named in `inputs` are fixtures built by this harness, not by the code under test: they take part in
+    the sharing check only."""
     owner = {}
     for name, r in roots_named:
-        w = check_wf(r, space)
+        w = None if name in inputs else check_wf(r, space)
         if w:
             return '%s: %s' % (name, w)
         for i in node_ids(r):
@@ -412,6 +414,7 @@ def run_deepcopy(c):
     import copy
     sp = make_space(1, c['nt'], [0], 1, 1)
     t = build(c['shape'], sp)
+    fixture_ok = check_wf(t, sp) is None       # the fixture is ours: if the arity table no longer admits it, C08 is silent here
     before = snap(t)
     cp, exc = guarded(lambda: copy.deepcopy(t))
     if exc:
@@ -419,12 +422,12 @@ def run_deepcopy(c):
         return
     c['exp'] = ser(sp, [t, cp])
     # property part (the best tree is a deep copy): well formed, disjoint, same labels, source untouched
-    o = check_population(sp, [('source', t), ('copy', cp)])
+    o = check_population(sp, [('source', t), ('copy', cp)], inputs=('source',))
     if not o and ltree(cp) != ltree(t):
         o = 'the copy differs from its source'
     if not o and snap(t) != before:
         o = 'deepcopy modified its source'
-    c['o8'] = o
+    c['o8'] = o if fixture_ok else None
 
 
 def run_grow(c):
@@ -447,6 +450,7 @@ def run_grow(c):
 def run_mutate(c):
     sp = make_space(1, c['nt'], c['funs'], c['min'], c['max'])
     t = build(c['shape'], sp)
+    fixture_ok = check_wf(t, sp) is None
     before = snap(t)
     lt0 = ltree(t)
     gp = GP()
@@ -463,7 +467,7 @@ def run_mutate(c):
         c['o8'] = c['o9'] = '_mutate did not return a Node'
         return
     c['exp'] = ser(sp, [t, m]) + [[s.rest()]]
-    c['o8'] = check_population(sp, [('parent', t), ('mutated', m)])
+    c['o8'] = check_population(sp, [('parent', t), ('mutated', m)], inputs=('parent',)) if fixture_ok else None
     c['o9'] = oracle_mutate(c, t, before, lt0, m, grown)
 
 
@@ -516,6 +520,7 @@ def run_cross(c):
     sp = make_space(1, c['nt'], [0], 1, 1)
     f = build(c['f'], sp)
     m = f if c.get('same') else build(c['m'], sp)
+    fixture_ok = check_wf(f, sp) is None and check_wf(m, sp) is None
     bf, bm = snap(f), snap(m)
     lf, lm = ltree(f), ltree(m)
     gp = GP()
@@ -534,7 +539,9 @@ def run_cross(c):
     c['exp'] = ser(sp, ([f, fo, mo] if c.get('same') else [f, m, fo, mo])) + [[s.rest()]]
     o = None
     c['o8'] = check_population(sp, ([('father', f)] if c.get('same') else [('father', f), ('mother', m)])
-                               + [('father_offspring', fo), ('mother_offspring', mo)])
+                               + [('father_offspring', fo), ('mother_offspring', mo)], inputs=('father', 'mother'))
+    if not fixture_ok:
+        c['o8'] = None
     if snap(f) != bf or snap(m) != bm:
         o = 'a parent was modified'
     if not o and (node_ids(fo) | node_ids(mo)) & (node_ids(f) | node_ids(m)):
@@ -578,6 +585,7 @@ def run_repro(c):
     set_population(sp, c['shapes'], c['fits'])
     gp = GP(hyperparams={'p_reproduction': c['p']})
     old_t, old_a = list(sp.trees), list(sp.agents)
+    fixture_ok = all(check_wf(t, sp) is None for t in old_t)
     before = [snap(t) for t in old_t]
     s = Script((), c['picks'])
     with s:
@@ -600,7 +608,7 @@ def run_repro(c):
     if len(new_t) != n or any(not isinstance(t, Node) for t in new_t):
         c['o8'] = 'space.trees is no longer a list of %d Nodes' % n
     else:
-        c['o8'] = check_population(sp, [('tree %d' % i, t) for i, t in enumerate(new_t)])
+        c['o8'] = check_population(sp, [('tree %d' % i, t) for i, t in enumerate(new_t)]) if fixture_ok else None
     c['o9'], c['o9_kind'] = oracle_repro(c, sp, old_t, old_a, before, new_t, new_a)
     c['nontrivial'] = any(a is not b for a, b in zip(old_t, new_t))
 
